@@ -56,6 +56,15 @@ GrammarVerdict(g) ==
   ELSE IF Cardinality({k \in 1..Len(g.items) : g.items[k].cls = "stride"}) > 1 THEN "unspecified"
   ELSE IF Canonical(g.items) THEN "must_accept"
   ELSE "unspecified"
+(* the MEANING of an attribute does not depend on the order of its items: whenever every item is well formed, there is
+   exactly one range item matching the head, and access / stride occur at most once, the attribute -- if it is accepted
+   at all -- must mean what its items say (a re-ordered attribute may be rejected, but never mis-parsed) *)
+MeaningDefined(g) ==
+  /\ g.items # <<>> /\ ~HasBad(g.items) /\ NRange(g.items) = 1
+  /\ HeadMatches(g.head, RangeItem(g.items))
+  /\ Cardinality({k \in 1..Len(g.items) : g.items[k].cls = "access"}) <= 1
+  /\ Cardinality({k \in 1..Len(g.items) : g.items[k].cls = "stride"}) <= 1
+  /\ (HasStride(g.items) => g.isarray)
 (* what a well-formed attribute means *)
 GRanges(g) == RangeItem(g.items).ranges
 GAccess(g) == LET acc == {k \in 1..Len(g.items) : g.items[k].cls = "access"} IN
@@ -69,9 +78,12 @@ Level == IF "SPACE_LEVEL" \in DOMAIN IOEnv THEN atoi(IOEnv.SPACE_LEVEL) ELSE 1
 Seqs1 == {<<a>> : a \in RangeItems \cup AccessItems \cup StrideItems}
 Seqs2 == {<<a, b>> : a \in RangeItems, b \in AccessItems \cup StrideItems \cup (IF Level >= 2 THEN RangeItems ELSE {I("2..=3", "range", << <<2, 3>> >>)})}
          \cup {<<b, a>> : a \in RangeItems, b \in {I("rw", "access", <<>>), I("stride = 2", "stride", <<>>)}}
+SeqsPerm == {<<c, a, b>> : a \in {r \in RangeItems : r.cls # "bad"}, b \in {I("rw", "access", <<>>), I("w", "access", <<>>)}, c \in {I("stride = 4", "stride", <<>>), I("stride: 2", "stride", <<>>)}}
+            \cup {<<c, a>> : a \in {r \in RangeItems : r.cls # "bad"}, c \in {I("stride = 4", "stride", <<>>)}}
+            \cup {<<b, c, a>> : a \in {r \in RangeItems : r.cls = "range"}, b \in {I("rw", "access", <<>>)}, c \in {I("stride = 4", "stride", <<>>)}}
 Seqs3 == {<<a, b, c>> : a \in (IF Level >= 2 THEN RangeItems ELSE {r \in RangeItems : r.cls # "bad"}), b \in AccessItems, c \in StrideItems}
          \cup {<<a, c, b>> : a \in {r \in RangeItems : r.cls # "bad"}, b \in {I("rw", "access", <<>>)}, c \in {I("stride = 2", "stride", <<>>)}}
          \cup {<<a, b, b2>> : a \in {r \in RangeItems : r.cls = "range"}, b \in {I("r", "access", <<>>)}, b2 \in {I("w", "access", <<>>), I("r", "access", <<>>)}}
-AllSeqs == {<<>>} \cup Seqs1 \cup Seqs2 \cup Seqs3
+AllSeqs == {<<>>} \cup Seqs1 \cup Seqs2 \cup Seqs3 \cup SeqsPerm
 Space == {[head |-> h, items |-> s, isarray |-> arr] : h \in {"bit", "bits"}, s \in AllSeqs, arr \in BOOLEAN}
 =============================================================================
